@@ -862,6 +862,10 @@ func NewCharClassMatcher(p Pos, raw string) *CharClassMatcher {
 	return c
 }
 
+// classEscape stands for a Unicode class escape (\pL, \p{Latin}) in the
+// sequence of characters of a class while its ranges are extracted.
+const classEscape rune = -1
+
 func (c *CharClassMatcher) parse() {
 	raw := c.Val
 	c.IgnoreCase = strings.HasSuffix(raw, "i")
@@ -922,6 +926,9 @@ outer:
 				} else {
 					c.UnicodeClasses = append(c.UnicodeClasses, string(rn))
 				}
+				// a class escape is not a character: it cannot be an end of a range
+				chars = append(chars, classEscape)
+				escaped = append(escaped, true)
 				continue
 
 			case 'x':
@@ -953,6 +960,11 @@ outer:
 	// extract ranges and chars
 	inRange, wasRange := false, false
 	for i, r := range chars {
+		if r == classEscape {
+			// a dash that follows is a character, like a dash that follows a range
+			wasRange = true
+			continue
+		}
 		if inRange {
 			c.Ranges = append(c.Ranges, r)
 			inRange = false
@@ -961,7 +973,7 @@ outer:
 		}
 
 		// only a dash written as such is the range operator; an escaped dash (\x2d) is a character
-		if r == '-' && !escaped[i] && !wasRange && len(c.Chars) > 0 && i < len(chars)-1 {
+		if r == '-' && !escaped[i] && !wasRange && len(c.Chars) > 0 && i < len(chars)-1 && chars[i+1] != classEscape {
 			inRange = true
 			wasRange = false
 			// start of range is the last Char added
